@@ -13,7 +13,7 @@ class P(Prop):
             "structure compared exactly with the Lean model, `sat` compared with a direct comparison of the two circuits "
             "over all valuations; non-trivial = >=1 shared endpoint and >=1 gate")
     assumptions = ["set-iteration order inside the patched run is the model's ordBy(seed) family"]
-    budget = {"quick": (200, 200), "thorough": (3000, 3000)}
+    budget = {"quick": (600, 600), "thorough": (3000, 3000)}
 
     def gen_pair(self):
         rng = self.rng
